@@ -181,13 +181,16 @@ class Interp:
 
     # -- program -----------------------------------------------------------
     def run(self):
-        for g in self.prog.globals:
-            if isinstance(g, ArrDecl):
-                n = self.eval(g.length)
-                self.globals[g.name] = ArrayObj(g.el, [POISON] * n)
-            else:
-                v = self.eval(g.init)
-                self.globals[g.name] = v if isinstance(v, ArrayObj) else Box(v)
+        try:
+            for g in self.prog.globals:
+                if isinstance(g, ArrDecl):
+                    n = self.eval(g.length)
+                    self.globals[g.name] = ArrayObj(g.el, [POISON] * n)
+                else:
+                    v = self.eval(g.init)
+                    self.globals[g.name] = v if isinstance(v, ArrayObj) else Box(v)
+        except Terminal as t:
+            return t.kind
         mains = self.funcs.get('@is_you', [])
         if len(mains) != 1:
             raise AssertionError('reference model needs exactly one @is_you')
